@@ -1,0 +1,417 @@
+//go:build verif
+
+package main
+
+// Verification instrumentation (build tag verif).
+//
+// 1. verifStep: one event per iteration of evaluationLoop (statement boundary).
+// 2. An in-process worker (TI_VERIF_WORKER=1): reads one JSON job per line on
+//    stdin, restores a deep snapshot of all analysis tables taken right after
+//    the configuration was loaded, runs the same round loop as main() with
+//    stdout captured, recovers panics, and answers with one JSON line.
+//    The orchestration of main()/evaluationLoop is reused (preload and all
+//    non-final evaluationLoop calls are the real functions); only the final
+//    (check round, target file) call is a copy without os.Exit.
+
+import (
+	"bufio"
+	"encoding/json"
+	"fmt"
+	"io"
+	"os"
+	"runtime"
+	"strings"
+	"sync"
+	"ti/base"
+	"ti/builtin"
+	"ti/cmd"
+	"ti/context"
+	"ti/eval"
+	"ti/eval/method_evaluator"
+	"ti/lexer/reader"
+	"ti/parser"
+)
+
+var verifEvents []map[string]any
+var verifTraceOn bool
+var verifDigestMode string // "", "round", "stmt"
+var verifBaseDigest map[string]string
+
+func verifEmit(ev map[string]any) {
+	if verifTraceOn {
+		verifEvents = append(verifEvents, ev)
+	}
+}
+
+func verifCurrentDigest() map[string]string {
+	d := base.VerifBuiltinDigest(false)
+	for k, v := range builtin.VerifTemplateDigest() {
+		d[k] = v
+	}
+	return d
+}
+
+func verifCheckDigest(where string, round string, row int) {
+	cur := verifCurrentDigest()
+	for k, v := range verifBaseDigest {
+		if cur[k] != v {
+			verifEvents = append(verifEvents, map[string]any{
+				"ev": "mutation", "where": where, "round": round, "row": row,
+				"entry": k, "before": v, "after": cur[k],
+			})
+			verifBaseDigest[k] = cur[k] // report each change once
+		}
+	}
+}
+
+func verifStep(p *parser.Parser, round string, isLoad bool, eof bool) {
+	if verifTraceOn {
+		verifEvents = append(verifEvents, map[string]any{
+			"ev": "step", "round": round, "file": p.FileName, "load": isLoad, "row": p.Row, "eof": eof,
+			"eofReads": reader.VerifEOFReads,
+		})
+	}
+	if verifDigestMode == "stmt" || (verifDigestMode == "round" && eof) {
+		verifCheckDigest("step", round, p.Row)
+	}
+}
+
+type verifJob struct {
+	Cwd        string   `json:"cwd"`
+	CfgKey     string   `json:"cfgkey"`
+	Args       []string `json:"args"`
+	EOFBudget  int      `json:"eof_budget"`
+	ReadBudget int      `json:"read_budget"`
+	Trace      bool     `json:"trace"`
+	Digest     string   `json:"digest"`
+}
+
+type verifResult struct {
+	Out      string           `json:"out"`
+	Exit     int              `json:"exit"`
+	Panic    string           `json:"panic,omitempty"`
+	Class    string           `json:"class,omitempty"`
+	Site     string           `json:"site,omitempty"`
+	EvalSite string           `json:"evalsite,omitempty"`
+	LexSite  string           `json:"lexsite,omitempty"`
+	Stack    []string         `json:"stack,omitempty"`
+	EOFReads int              `json:"eof_reads"`
+	Streak   int              `json:"eof_streak"`
+	Reads    int              `json:"reads"`
+	Events   []map[string]any `json:"events,omitempty"`
+	CfgErr   string           `json:"cfgerr,omitempty"`
+}
+
+type verifExit struct{ code int }
+
+// verifFinalLoop is evaluationLoop for the (check round, target file) call,
+// with os.Exit replaced by a panic(verifExit) that the worker recovers.
+func verifFinalLoop(p parser.Parser, flags *cmd.ExecuteFlags, round string, isLoad bool) {
+	ctx := context.NewContext("", "", round)
+	evaluator := eval.Evaluator{}
+
+	p.Errors = []error{}
+
+	for {
+		t, err := p.Read()
+		if err != nil {
+			p.Fatal(ctx, err)
+		}
+
+		verifStep(&p, round, isLoad, t == nil)
+
+		err = evaluator.Eval(&p, ctx, t)
+		if err != nil {
+			p.Fatal(ctx, err)
+		}
+
+		if t != nil {
+			continue
+		}
+
+		break
+	}
+
+	if round != "check" {
+		return
+	}
+
+	if isLoad {
+		return
+	}
+
+	setDefineInfos(&p)
+	appendSignature()
+
+	if len(p.DefineInfos) > 0 && flags.IsDefineInfo {
+		cmd.PrintDefineInfosForPlugin(p.DefineInfos)
+	}
+
+	if len(p.DefineInfos) > 0 && flags.IsLlmNavAll {
+		fmt.Println("# Method Signatures")
+		cmd.PrintDefineInfosForLlm()
+		fmt.Println("---")
+		fmt.Println("# Top Level Special Code Comments")
+		cmd.PrintSpecialCodeCommentsForLlm()
+		return
+	}
+
+	if len(base.TSignatures) > 0 && flags.IsLlmDefine {
+		cmd.PrintAllDefinitionsForLlm()
+	}
+
+	if len(base.TSignatures) > 0 && flags.IsLlmClass {
+		cmd.PrintAllClassesForLlm()
+	}
+
+	if len(base.TSignatures) > 0 && flags.IsLlmNav {
+		hasTarget := cmd.PrintLlmNav()
+		if !hasTarget {
+			fmt.Println("---")
+			fmt.Println("# Top Level Special Code Comments")
+			cmd.PrintSpecialCodeCommentsForLlm()
+		}
+	}
+
+	if len(base.TSignatures) > 0 && flags.IsDefineAllInfo {
+		cmd.PrintAllDefinitionsForLsp(p)
+	}
+
+	if len(base.TSignatures) > 0 && flags.IsSuggest {
+		cmd.PrintSuggestionsForLsp(p)
+	}
+
+	if flags.IsHover {
+		cmd.PrintHover(p)
+	}
+
+	if flags.IsExtends {
+		cmd.PrintTargetClassExtends()
+		panic(verifExit{0})
+	}
+
+	if len(p.Errors) > 0 && flags.IsLlmError {
+		fmt.Println("[Errors]")
+		cmd.PrintAllErrorsForPlugin(p)
+		panic(verifExit{0})
+	}
+
+	if len(p.Errors) > 0 {
+		cmd.PrintAllErrorsForPlugin(p)
+		panic(verifExit{0})
+	}
+}
+
+// verifMain is the goroutine body of main() (without help/version/all-type).
+func verifMain() {
+	flags := cmd.BuildFlags()
+
+	rounds := context.GetRounds()
+	for i, round := range rounds {
+		file := cmd.GetTargetFile()
+		fp, _ := os.Open(file)
+		br := bufio.NewReader(fp)
+
+		p := getParser(br, file)
+		cmd.ApplyParserFlags(&p)
+
+		cleanSimpleIdentifires()
+
+		verifEmit(map[string]any{"ev": "round", "round": round, "file": file})
+
+		preload(round, flags)
+		if i == len(rounds)-1 {
+			verifFinalLoop(p, flags, round, false)
+		} else {
+			evaluationLoop(p, flags, round, false)
+		}
+		if fp != nil {
+			fp.Close()
+		}
+	}
+}
+
+func verifSiteOf(frames []string) (site, evalSite, lexSite string) {
+	for _, f := range frames {
+		if !strings.HasPrefix(f, "ti/") && !strings.HasPrefix(f, "main.") {
+			continue
+		}
+		if strings.Contains(f, "erif") {
+			continue
+		}
+		if site == "" {
+			site = f
+		}
+		isLex := strings.HasPrefix(f, "ti/lexer") || strings.HasPrefix(f, "ti/parser")
+		if isLex && lexSite == "" && !strings.HasSuffix(f, "LexerReader).Read") {
+			lexSite = f
+		}
+		if !isLex && evalSite == "" {
+			evalSite = f
+		}
+	}
+	return
+}
+
+func verifRunJob(job *verifJob, snap **base.VerifSnapshot, curKey *string, realOut *os.File) (res verifResult) {
+	if job.Cwd != "" {
+		if err := os.Chdir(job.Cwd); err != nil {
+			res.CfgErr = err.Error()
+			res.Exit = 3
+			return
+		}
+	}
+	if *snap == nil || job.CfgKey != *curKey {
+		func() {
+			defer func() {
+				if r := recover(); r != nil {
+					res.CfgErr = fmt.Sprint(r)
+				}
+			}()
+			if err := builtin.VerifReload(); err != nil {
+				res.CfgErr = err.Error()
+			}
+		}()
+		if res.CfgErr != "" {
+			*snap = nil
+			res.Exit = 3
+			return
+		}
+		*snap = base.VerifTakeSnapshot()
+		*curKey = job.CfgKey
+	} else {
+		base.VerifRestore(*snap)
+		builtin.VerifRestoreTemplates()
+		base.VerifMarkConfigured()
+	}
+	eval.VerifReset()
+
+	verifEvents = nil
+	verifTraceOn = job.Trace
+	verifDigestMode = job.Digest
+	if job.Digest != "" {
+		verifBaseDigest = verifCurrentDigest()
+	}
+	sink := func(ev map[string]any) { verifEmit(ev) }
+	if job.Trace {
+		method_evaluator.VerifSink = sink
+		parser.VerifOnFatal = func(file string, row int, round string, msg string) {
+			verifEmit(map[string]any{"ev": "err", "file": file, "row": row, "round": round, "msg": msg})
+		}
+	} else {
+		method_evaluator.VerifSink = nil
+		parser.VerifOnFatal = nil
+	}
+	reader.VerifReset(job.EOFBudget)
+	parser.VerifReset(job.ReadBudget)
+
+	os.Args = append([]string{"ti"}, job.Args...)
+
+	// capture stdout
+	r, w, _ := os.Pipe()
+	saved := os.Stdout
+	os.Stdout = w
+	var buf strings.Builder
+	var wg sync.WaitGroup
+	wg.Add(1)
+	go func() {
+		defer wg.Done()
+		io.Copy(&buf, r)
+	}()
+
+	func() {
+		defer func() {
+			if rec := recover(); rec != nil {
+				if ex, ok := rec.(verifExit); ok {
+					res.Exit = ex.code
+					return
+				}
+				res.Exit = 2
+				res.Panic = fmt.Sprint(rec)
+				switch v := rec.(type) {
+				case reader.VerifBudgetExceeded:
+					res.Class = "hang:" + v.Kind
+				case parser.VerifBudgetExceeded:
+					res.Class = "hang:" + v.Kind
+				case runtime.Error:
+					msg := v.Error()
+					switch {
+					case strings.Contains(msg, "nil pointer"):
+						res.Class = "nil-deref"
+					case strings.Contains(msg, "index out of range"):
+						res.Class = "index-out-of-range"
+					case strings.Contains(msg, "slice bounds"):
+						res.Class = "slice-bounds"
+					case strings.Contains(msg, "interface conversion"):
+						res.Class = "type-assertion"
+					default:
+						res.Class = "runtime-error"
+					}
+				default:
+					res.Class = "panic"
+				}
+				pcs := make([]uintptr, 64)
+				n := runtime.Callers(3, pcs)
+				frames := runtime.CallersFrames(pcs[:n])
+				var names []string
+				for {
+					fr, more := frames.Next()
+					names = append(names, fr.Function)
+					if !more {
+						break
+					}
+				}
+				res.Stack = names
+				res.Site, res.EvalSite, res.LexSite = verifSiteOf(names)
+			}
+		}()
+		verifMain()
+	}()
+
+	w.Close()
+	wg.Wait()
+	r.Close()
+	os.Stdout = saved
+
+	res.Out = buf.String()
+	res.EOFReads = reader.VerifEOFReads
+	res.Streak = reader.VerifEOFStreak
+	res.Reads = parser.VerifReads
+	if job.Digest != "" {
+		verifCheckDigest("end", "end", 0)
+	}
+	res.Events = verifEvents
+	verifEvents = nil
+	return
+}
+
+func init() {
+	if os.Getenv("TI_VERIF_WORKER") != "1" {
+		return
+	}
+	realOut := os.Stdout
+	in := bufio.NewReaderSize(os.Stdin, 1<<20)
+	out := bufio.NewWriter(realOut)
+	var snap *base.VerifSnapshot
+	var curKey string
+	for {
+		line, err := in.ReadBytes('\n')
+		if len(line) > 0 {
+			var job verifJob
+			if jerr := json.Unmarshal(line, &job); jerr != nil {
+				fmt.Fprintf(out, "{\"cfgerr\":%q,\"exit\":3}\n", "bad job: "+jerr.Error())
+				out.Flush()
+			} else {
+				res := verifRunJob(&job, &snap, &curKey, realOut)
+				b, _ := json.Marshal(res)
+				out.Write(b)
+				out.WriteByte('\n')
+				out.Flush()
+			}
+		}
+		if err != nil {
+			break
+		}
+	}
+	os.Exit(0)
+}
